@@ -179,10 +179,12 @@ class Report:
                     print(f"  detail={_short(fs[0]['detail'])}")
         self._write_evidence(violations=len(new), known=seen_known, status="ok" if rc == 0 else "violation")
         dt = time.time() - self.t0
+        tm = os.times()
+        cpu = tm.user + tm.system + tm.children_user + tm.children_system
         c = self.counts
         print(
             f"[{self.pid} {self.tier}] states={c.get('states', 0)} transitions={c.get('transitions', 0)} "
-            f"known_failing_cases={sum(seen_known.values())} new_failing_cases={len(new)} wall={dt:.1f}s"
+            f"known_failing_cases={sum(seen_known.values())} new_failing_cases={len(new)} wall={dt:.1f}s cpu={cpu:.0f}s"
         )
         return rc
 
